@@ -181,6 +181,18 @@ CLAIMED["C17"] = dict(
    note="dyadic numbers and coordinate axes only; rejections other than tree comparisons are reported as drift; positional `plane(..)` shape forms excluded (name shared with the Plane value constructor)",
    technique="TLA+ denotational model (TLC: laws + enumeration) + TLC-generated scripts replayed into the real engine + TLA+ trace validation (structural equality)",
    design_ref="DESIGN.md section 3 C17")
+CLAIMED["C08"] = dict(
+   text="Mdc.tla recomputes the manifold-DC tables by the build-script algorithm (all 256 masks) and states the topology-safety test of "
+        "cell collapsing; Mesh.tla transcribes leaf classification, collapsing (every resolution of the numeric decision) and the dual "
+        "walk (cell / face / edge, deepest-leaf rule, winding): TLC checks closed oriented 2-manifoldness over all explored sign fields and "
+        "that, without collapsing, the mesh is manifold exactly when no checkerboard face is shared by two single-vertex cells; every "
+        "sign field of the bound is replayed into the real mesher (union of spheres), and random shapes (CSG, cones / cylinders on grid "
+        "lines, lattice-hugging slabs) are meshed at depths 1..6 with transforms, both backends and 0/N threads; Trace_C08 decides on the "
+        "recorded triangles: valid indices, finite coordinates, no degenerate triangle, every directed edge once and its reverse once, every "
+        "hook-recorded collapse satisfies Mdc!Collapsible, and the judged volume clause (which also fixes the global orientation).",
+   note="volume / orientation judged in f64 with tolerance K x (area x cell + 4 cell^3); per-triangle outwardness only on the model; known finding: shared ambiguous face",
+   technique="TLA+ design models (TLC exhaustive) + TLC-generated sign fields replayed into the real mesher + TLA+ trace validation incl. collapse hook events",
+   design_ref="DESIGN.md section 3 C08")
 NOT_YET = {}
 props = [json.loads(l) for l in open(os.path.join(ROOT, "properties.jsonl"))]
 m = {
@@ -190,7 +202,7 @@ m = {
    "guard": "fidget_verif",
    "enable": "RUSTFLAGS=\"--cfg fidget_verif --check-cfg cfg(fidget_verif)\" (set in /verif/harness/.cargo/config.toml; never in /repo)",
    "baseline_off_cmd": "cd /repo && cargo nextest run --workspace --no-fail-fast --test-threads 8 --offline || cargo test --workspace --no-fail-fast --offline",
-   "source_commits": ["16ce250", "849e604", "9be9fb2", "70c2606"],
+   "source_commits": ["16ce250", "849e604", "9be9fb2", "70c2606", "c3eb3a3"],
    "add_only": True,
  },
  "engines": [{"name": "vcheck", "path": "bin/vcheck", "serves_properties": sorted(CLAIMED),
